@@ -63,6 +63,8 @@ pub struct RunStats {
     pub late_join: u64,
     pub restart_after_exit: u64,
     pub forced_start: u64,
+    #[serde(default)]
+    pub blocked_handoffs: u64,
     pub hash_rekey: u64,
     pub poison_ops: BTreeMap<String, u64>,
     pub caught_panic_same: u64,
@@ -118,6 +120,12 @@ struct ThState {
     join: Option<JoinHandle<()>>,
     view: Foot,
     last_foot: Option<(u32, Foot)>,
+    /// the thread holds (or held) the baton but makes no progress: it waits for a real lock that
+    /// a parked thread holds. The watchdog passed the baton on; the thread rejoins at its next
+    /// scheduling point.
+    blocked: bool,
+    /// kernel thread id (used only by the watchdog to see whether the baton holder sleeps)
+    tid: i64,
 }
 
 struct State {
@@ -181,7 +189,7 @@ impl Shared {
     fn runnable(&self, st: &State, t: usize) -> bool {
         match st.th[t].life {
             Life::Exited => false,
-            Life::Live => true,
+            Life::Live => !st.th[t].blocked,
             Life::NotStarted => match &self.scen.threads[t].start {
                 Start::AtBegin => true,
                 Start::AfterOps(n) => st.ops_done >= *n as u64,
@@ -205,6 +213,11 @@ impl Shared {
             // nobody runnable: release a pending thread whose start condition cannot be met any more
             if let Some(t) = (0..n).find(|t| st.th[*t].life == Life::NotStarted) {
                 st.stats.forced_start += 1;
+                cand.push(t);
+            } else if let Some(t) = (0..n).find(|t| st.th[*t].life == Life::Live && st.th[*t].blocked) {
+                // only threads classified as blocked are left: whoever held their lock is gone,
+                // so the first of them owns the baton again
+                st.th[t].blocked = false;
                 cand.push(t);
             } else {
                 return MAIN;
@@ -298,8 +311,26 @@ impl Shared {
         }
     }
 
+    /// A thread that the watchdog had classified as blocked got going again: it must not run
+    /// alongside the current baton holder, so it waits here until the baton comes back to it.
+    fn rejoin(&self, me: usize) {
+        if me == MAIN {
+            return;
+        }
+        let was_blocked = {
+            let mut st = self.st.lock().unwrap_or_else(|e| e.into_inner());
+            let b = st.th[me].blocked;
+            st.th[me].blocked = false;
+            b
+        };
+        if was_blocked {
+            self.wait_baton(me);
+        }
+    }
+
     fn sched_point(self: &Arc<Self>, me: usize, p: Point) {
         self.progress.fetch_add(1, Ordering::Relaxed);
+        self.rejoin(me);
         let mut st = self.st.lock().unwrap_or_else(|e| e.into_inner());
         let (me_runnable, switch_pct) = match p {
             Point::Yield(site) => {
@@ -345,6 +376,8 @@ impl Shared {
     }
 
     fn op_done(self: &Arc<Self>, me: usize, step: usize, rep: u32, op_ix: u32, got: Outcome, view: Option<Foot>) {
+        self.progress.fetch_add(1, Ordering::Relaxed);
+        self.rejoin(me);
         let mut st = self.st.lock().unwrap_or_else(|e| e.into_inner());
         let sc = &self.scen;
         let op = &sc.ops[op_ix as usize];
@@ -475,7 +508,30 @@ fn sim_thread(sh: Arc<Shared>, me: usize) {
     }
 }
 
+extern "C" {
+    fn syscall(num: i64, ...) -> i64;
+}
+
+/// Is kernel thread `tid` of this process sleeping (state S or D in /proc)? Used by the watchdog
+/// only; never enters a result or a recorded decision.
+fn thread_sleeps(tid: i64) -> bool {
+    if tid <= 0 {
+        return false;
+    }
+    match std::fs::read_to_string(format!("/proc/self/task/{}/stat", tid)) {
+        Ok(s) => match s.rfind(')') {
+            Some(i) => matches!(s[i + 1..].trim_start().chars().next(), Some('S') | Some('D')),
+            None => false,
+        },
+        Err(_) => false,
+    }
+}
+
 fn sim_thread_inner(sh: Arc<Shared>, me: usize) {
+    {
+        let tid = unsafe { syscall(186) }; // SYS_gettid on x86_64
+        sh.st.lock().unwrap_or_else(|e| e.into_inner()).th[me].tid = tid;
+    }
     CTX.with(|c| *c.borrow_mut() = Some((sh.clone(), me)));
     a5::verif::set_hash_key(sh.scen.threads[me].hash_key);
     a5::verif::set_yield_hook(Some(yield_hook));
@@ -562,7 +618,7 @@ pub fn run(scen: &Scenario, schedule: Schedule, tracing: bool) -> RunOut {
     let st = State {
         rng: Rng::new(derive(scen.seed ^ scen.sched_salt.rotate_left(32), 0x73636864)),
         list,
-        th: (0..n).map(|_| ThState { life: Life::NotStarted, handle: None, join: None, view: Foot::default(), last_foot: None }).collect(),
+        th: (0..n).map(|_| ThState { life: Life::NotStarted, handle: None, join: None, view: Foot::default(), last_foot: None, blocked: false, tid: 0 }).collect(),
         ops_done: 0,
         decisions: Vec::new(),
         log: H64::new(),
@@ -607,13 +663,58 @@ pub fn run(scen: &Scenario, schedule: Schedule, tracing: bool) -> RunOut {
         sh.sched_point(MAIN, Point::Begin);
         let mut last = sh.progress.load(Ordering::Relaxed);
         let mut since = Instant::now();
+        let mut asleep_polls = 0u32;
         while sh.baton.load(Ordering::Acquire) != MAIN {
-            thread::park_timeout(Duration::from_millis(200));
+            thread::park_timeout(Duration::from_millis(2));
             let p = sh.progress.load(Ordering::Relaxed);
             if p != last {
                 last = p;
                 since = Instant::now();
-            } else if since.elapsed() > Duration::from_secs(stall_secs()) {
+                asleep_polls = 0;
+                continue;
+            }
+            let idle = since.elapsed();
+            // is the baton holder asleep in the kernel (waiting for a real lock)? A thread that is
+            // merely slow is in state R and is left alone.
+            let holder_tid = {
+                let holder = sh.baton.load(Ordering::Acquire);
+                let st = sh.st.lock().unwrap_or_else(|e| e.into_inner());
+                if holder != MAIN && holder < st.th.len() { st.th[holder].tid } else { 0 }
+            };
+            if thread_sleeps(holder_tid) {
+                asleep_polls += 1;
+            } else {
+                asleep_polls = 0;
+            }
+            if asleep_polls >= 4 || idle > Duration::from_millis(block_ms()) {
+                asleep_polls = 0;
+                // No scheduling progress: the baton holder waits for a real lock that a parked
+                // thread holds (a changed tree may hold a lock across a yield site). Classify it
+                // as blocked and let somebody else run; that is a schedule event, not a verdict.
+                let holder = sh.baton.load(Ordering::Acquire);
+                let mut st = sh.st.lock().unwrap_or_else(|e| e.into_inner());
+                if holder != MAIN && holder < st.th.len() && st.th[holder].life == Life::Live && !st.th[holder].blocked {
+                    let others = (0..st.th.len()).any(|t| t != holder && sh.runnable(&st, t));
+                    if others {
+                        st.th[holder].blocked = true;
+                        st.stats.blocked_handoffs += 1;
+                        let chosen = sh.decide(&mut st, holder, false, 100);
+                        if st.tracing {
+                            let d = st.decisions.len().saturating_sub(1);
+                            st.trace.push(format!("d{} t{} blocked (watchdog) -> t{}", d, holder, chosen as isize));
+                        }
+                        if chosen != MAIN {
+                            st.stats.switches += 1;
+                            sh.pass_to(&mut st, chosen);
+                            drop(st);
+                            since = Instant::now();
+                            continue;
+                        }
+                    }
+                }
+                drop(st);
+            }
+            if idle > Duration::from_secs(stall_secs()) {
                 eprintln!("STALL seed={} (no scheduling progress for {} s)", scen.seed, stall_secs());
                 std::process::exit(3);
             }
@@ -648,6 +749,10 @@ pub fn run(scen: &Scenario, schedule: Schedule, tracing: bool) -> RunOut {
     }
 }
 
+fn block_ms() -> u64 {
+    std::env::var("A5SIM_BLOCK_MS").ok().and_then(|s| s.parse().ok()).unwrap_or(1500)
+}
+
 fn stall_secs() -> u64 {
-    std::env::var("A5SIM_STALL_SECS").ok().and_then(|s| s.parse().ok()).unwrap_or(60)
+    std::env::var("A5SIM_STALL_SECS").ok().and_then(|s| s.parse().ok()).unwrap_or(30)
 }
